@@ -572,6 +572,8 @@ class Schema(ResolverMap):
         )
 
         cloned.merge_resolvers(self)
+        cloned.default_resolver = self.default_resolver
+        cloned.default_resolvers.update(self.default_resolvers)
 
         return cloned
 
